@@ -32,6 +32,18 @@ def digest(obj):
 
 
 # ------------------------------------------------------------------------------------
+_PIDS = []  # every worker interpreter started by this coordinator (scratch dirs swept at exit)
+
+
+def sweep_scratch():
+    import shutil
+
+    from . import fsseam
+
+    for pid in _PIDS:
+        shutil.rmtree(os.path.join(fsseam.scratch_base(), f"PVS{pid}"), ignore_errors=True)
+
+
 class WorkerProc:
     def __init__(self, hashseed):
         env = dict(os.environ)
@@ -50,6 +62,7 @@ class WorkerProc:
         if not line:
             raise HarnessError(f"worker (hash seed {hashseed}) did not start: {self.stderr_text()}")
         self.hello = json.loads(line)
+        _PIDS.append(self.proc.pid)
 
     def _drain(self):
         for line in self.proc.stderr:
@@ -518,7 +531,7 @@ def source_fingerprint():
 TIERS = {
     # prop: tier: (plans, batch, replicas k, recycle-after-batches, wall budget seconds)
     "C16": {"quick": (16000, 100, 2, 10, 240), "thorough": (300000, 200, 2, 12, 1500)},
-    "C15": {"quick": (4800, 10, 2, 10, 300), "thorough": (90000, 20, 3, 8, 2700)},
+    "C15": {"quick": (6400, 10, 3, 10, 400), "thorough": (90000, 20, 4, 8, 2900)},
     "C13": {"quick": (12000, 50, 2, 10, 300), "thorough": (100000, 100, 2, 12, 2700)},
 }
 
@@ -789,6 +802,7 @@ def check(prop, tier, seed):
     reported = []
     known_hit = []
     history_found = []
+    skipped = []
     try:
         for c5 in out["i5_candidates"]:
             found = None
@@ -797,14 +811,25 @@ def check(prop, tier, seed):
                 if found:
                     break
             if not found:
-                print(f"HARNESS-ERROR: isolated outcome of {c5['key']} differed between plans "
-                      f"{c5['a']['index']} and {c5['b']['index']} but neither a fresh interpreter "
-                      f"nor the interpreters' histories reproduce it")
-                return EXIT_HARNESS
+                # not the interpreters' histories: then the two interpreters' hash seeds. Hand the
+                # later plan with both hash seeds to the ordinary I4 confirmation below (which
+                # ends in a harness error if that does not reproduce it either).
+                key = f"{prop}/I4/?"
+                if c5["a"]["hs"] != c5["b"]["hs"] and key not in out["candidates"]:
+                    out["candidates"][key] = Candidate(
+                        key, "I4", c5["b"]["index"], [c5["a"]["hs"], c5["b"]["hs"]],
+                        {"where": [c5["a"], c5["b"]], "from": "I5 cross-session comparison"})
+                continue
             history_found.append(found)
             break  # one minimised history per run is enough
+        MAX_REPORTS = int(os.environ.get("VERIF_MAX_REPORTS", "6"))
         for key, cand in sorted(out["candidates"].items()):
             from . import generators
+
+            if len(reported) >= MAX_REPORTS:
+                # every further signature is a violation too; they are listed, not minimised
+                skipped.append(key)
+                continue
 
             plan = generators.generate(prop, seed, cand.index)
             hashseeds = list(cand.hashseeds)
@@ -892,6 +917,9 @@ def check(prop, tier, seed):
     for sig, path, tests in reported:
         print(f"violation {sig}: minimised with {tests} re-executions", flush=True)
         print(f"VIOLATION property={prop} replay={path}", flush=True)
+    if skipped:
+        print(f"{len(skipped)} further violation signature(s) seen in this run, not minimised: "
+              + ", ".join(skipped[:40]), flush=True)
     evidence_mod.write(prop, tier, seed, run, out, samples, known_hit, reported, source_fingerprint())
     rate = out["plans_done"] / out["wall"] * 3600 if out["wall"] else 0
     print(f"[{prop}] plans={out['plans_done']} executions={out['executions']} steps={out['steps']} "
